@@ -146,11 +146,33 @@ def chk_detinv(c):
     assert np.allclose(np.asarray(inv) @ X, np.eye(d), atol=1e-11)
 
 
-CHECKS = {'1d': chk_1d, 'asym': chk_asym, 'tp': chk_tp, 'geo': chk_geo, 'detinv': chk_detinv}
+def chk_fast(c):
+    """low-rank fast assembler vs the generic assembler, entrywise within a small multiple of the requested tolerance (smooth geometry)"""
+    from pyiga import assemble, geometry, bspline
+    kvs = tuple(bspline.make_knots(p, 0.0, 1.0, n) for p, n in c['space'])
+    dim = len(kvs)
+    geo = geometry.quarter_annulus() if dim == 2 else geometry.twisted_box()
+    tol = 1e-10
+    for name, fast, ref in (('mass', assemble.mass_fast, assemble.mass), ('stiffness', assemble.stiffness_fast, assemble.stiffness)):
+        A = fast(kvs, geo, tol=tol, skipcount=25, tolcount=25, verbose=0).toarray()
+        B = ref(kvs, geo).toarray()
+        assert A.shape == B.shape
+        err = np.abs(A - B).max()
+        assert err <= 1e4 * tol * max(1.0, np.abs(B).max()), '%s_fast differs from the generic assembler by %g (tolerance %g)' % (name, err, tol)
+        assert np.abs(A - A.T).max() <= 1e-12 * max(1.0, np.abs(A).max()), '%s_fast is not symmetric' % name
+
+
+CHECKS = {'fast': chk_fast, '1d': chk_1d, 'asym': chk_asym, 'tp': chk_tp, 'geo': chk_geo, 'detinv': chk_detinv}
 
 
 def generate(tier, rng):
     quick = tier == 'quick'
+    # low-rank assembler: mixed degrees per direction (all orders of unequal degrees), moderate sizes
+    for sp in ([(1, 6), (3, 5)], [(3, 5), (1, 6)], [(2, 5), (2, 5)], [(2, 4), (3, 4)]):
+        yield 'fast', {'space': sp}
+    for sp in ([(1, 3), (2, 3), (3, 3)], [(2, 3), (1, 3), (3, 3)], [(3, 3), (2, 3), (1, 3)], [(2, 3), (2, 3), (2, 3)]) if quick else \
+            ([(a, 3), (b, 3), (c_, 3)] for a in (1, 2, 3) for b in (1, 2, 3) for c_ in (1, 2, 3)):
+        yield 'fast', {'space': sp}
     brs = kvgen.BREAKSETS[:6]
     kvs = list(kvgen.knotvec_arrays(pmax=3 if quick else 5, breaksets=brs))
     for p, kv in kvs:
